@@ -29,10 +29,10 @@ type peer struct {
 	txBad   map[util.Uint256]bool
 	pre     []*block.Block // blocks served on getblockbyindex
 	lastGBI [2]int
-	since   int64 // log position at which the handshake completed
-	exts    map[util.Uint256]*payload.Extensible      // served on getdata
-	mute    bool                                      // never answers getdata for transactions
-	txOrder string                                    // asc | desc
+	since   int64                                // log position at which the handshake completed
+	exts    map[util.Uint256]*payload.Extensible // served on getdata
+	mute    bool                                 // never answers getdata for transactions
+	txOrder string                               // asc | desc
 	txDup   bool
 	byUs    bool
 	pongs   chan uint32
